@@ -183,7 +183,7 @@ namespace cdsv {
                     m_ps.nontrivial.fetch_add( 1, std::memory_order_relaxed );
                     IdNorm nm( 1000 );
                     m_ps.add_fp( fingerprint( h, nm, std::hash<std::string>()( m_plan.variant )));
-                    if ( v == Verdict::ok && !lin.empty() && m_ps.need_sample()) {
+                    if ( v == Verdict::ok && ( !lin.empty() || m_plan.custom_check ) && m_ps.need_sample()) {
                         std::string js = history_json( h, m_plan.is_pq ? pq_opnames : seq_opnames, &lin );
                         m_ps.add_sample( "{\"variant\":" + jstr( m_plan.variant ) + ",\"case\":" + js + "}" );
                     }
